@@ -584,7 +584,9 @@ int String::count() const
 			++count_;
 		}
 		else if ((c & 0xe0) == 0xc0) {
-			++u; ++count_;
+			++count_;
+			char c2 = *u++;
+			if (c2 == 0) break;
 		}
 		else if ((c & 0xf0) == 0xe0) {
 			++count_;
